@@ -187,7 +187,7 @@ def check_property(pid, tier, seed, relock=False, only=None, jobs=None, verbose=
         if a["sample_smt"] and len(samples) < 3:
             samples.append({"obligation": name, "verdict": a["status"], "smt2_tail": a["sample_smt"][-600:]})
     oblist = [{"name": n, "status": a["status"], "instances": a["instances"], "discharged": a["discharged"], "vacuous": a["vacuous"],
-               "solver_s": round(a["solver_s"], 3), "backend": a["backend"]} for n, a in sorted(agg.items())]
+               "solver_s": round(a["solver_s"], 3), "slowest_query_s": round(a.get("solver_max_s", 0.0), 3), "backend": a["backend"]} for n, a in sorted(agg.items())]
     trusted = [t % z3.get_version_string() if "%s" in t else t for t in GLOBAL_TRUSTED] + assumptions
     cov = {
         "obligations": n_inst - n_known_inst,
@@ -201,6 +201,8 @@ def check_property(pid, tier, seed, relock=False, only=None, jobs=None, verbose=
         "obligation_list": oblist,
         "samples": samples or [{"note": "no discharged obligation sample available"}],
         "solver_time_s": round(sum(a["solver_s"] for a in agg.values()), 2),
+        "slowest_query_s": round(max([a.get("solver_max_s", 0.0) for a in agg.values()] or [0.0]), 3),
+        "solver_budget_per_query_s": 8.0,
         "undecided": undecided[:30],
         "guards": {"must_fail_twins_refuted": sum(1 for a in agg.values() if a["kind"] == "refute" and a["status"] == "discharged"),
                    "guard_failures": guard_fail, "postcondition_points_covered": sum(o.get("covers", 0) for o in outs)},
